@@ -24,9 +24,13 @@
                       deadline strictly in the past
     cancel codes      a cancel / abort / stop code is reported only for an operation during whose
                       lifetime that cancel / abort / stop was issued
-    quiescence        when nng_aio_stop returns no callback is running, every operation whose
-                      start had returned before the stop has reported, later callbacks carry
-                      NNG_ESTOPPED; after nng_aio_free returns nothing happens on the aio
+    quiescence        when nng_aio_stop returns, no callback is running that began before the stop was
+                      called or that reports an operation whose start had returned before the stop was
+                      called, and every such operation has reported (a start racing with the stop is
+                      refused; its NNG_ESTOPPED callback runs without nng_aio_stop waiting for it, so it
+                      may be running when the stop returns); later callbacks carry NNG_ESTOPPED; when
+                      nng_aio_free returns no callback at all is running (a start racing with
+                      nng_aio_free is a caller error), and afterwards nothing happens on the aio
 -/
 import NngModel.Generated.C02
 namespace Nng.AioSpec
@@ -82,6 +86,7 @@ structure J where
   ops : List Op := []          -- newest first
   reports : Nat := 0
   openCb : Nat := 0
+  oldCb : Nat := 0             -- running callbacks that nng_aio_stop has to wait for (see `cbBegin`)
   lastCb : Option Nat := none
   skipArmed : Bool := false
   openAborts : Nat := 0         -- nng_aio_abort calls that have not returned
@@ -204,8 +209,11 @@ def step (j : J) (o : Obs) : J :=
     match j.pendingOp with
     | none => j.fail "exactly-once: callback without a pending operation"
     | some o =>
+      -- (a callback nng_aio_stop waits for: it begins before any stop / close / free call, or reports an
+      --  operation whose start had returned before that call; when several callbacks run, those are taken to end first)
       let j1 := { j with reports := j.reports + 1, ops := markReported j.ops j.reports,
-                         openCb := j.openCb + 1, lastCb := some r }
+                         openCb := j.openCb + 1, lastCb := some r,
+                         oldCb := j.oldCb + (if !j.stopCalled || o.retBeforeStop then 1 else 0) }
       if o.decided.isSome && o.decided != some r then
         j1.fail s!"result: callback reports {r} but the operation was completed with {o.decided.getD 0}"
       else if r = ETIMEDOUT && !o.userTimeout && o.decided != some r && o.kind != .ext && !timeoutDue o j.now then
@@ -219,14 +227,14 @@ def step (j : J) (o : Obs) : J :=
       else if j.stopReturned && r ≠ ESTOPPED && (match o.kind with | .direct _ => false | .ext => false | _ => true) then
         j1.fail "quiescence: callback with a result other than NNG_ESTOPPED after nng_aio_stop returned"
       else j1
-  | .cbEnd => { j with openCb := j.openCb - 1 }
+  | .cbEnd => { j with openCb := j.openCb - 1, oldCb := j.oldCb - 1 }
   | .peek r =>
     if j.reports = j.ops.length && j.lastCb.isSome && j.lastCb != some r then
       j.fail s!"result: result changed from {j.lastCb.getD 0} to {r} after the callback"
     else j
   | .stopCall => { j with stopCalled := true }
   | .stopRet =>
-    if j.openCb ≠ 0 then j.fail "quiescence: a callback is running when nng_aio_stop returns"
+    if j.oldCb ≠ 0 then j.fail "quiescence: a callback is running when nng_aio_stop returns"
     else if j.ops.any (fun o => o.retBeforeStop && !o.reported) then
       j.fail "quiescence: an operation started before nng_aio_stop has not reported when it returns"
     else { j with stopReturned := true }
